@@ -81,6 +81,7 @@ def is_identity(t, shape):
 
 
 def check(case, stats):
+    lib.run_primes(case.get("primes"))
     pred, ref, cfg = c01.resolve(case)
     cfg["gmetrics"] = case.get("gmetrics", [])
     # voxel order changes under the transformations, so an ASSD score exactly at a threshold may move by an ulp
